@@ -354,6 +354,66 @@ pub fn originals(rng: &mut Rng, k: usize, size: usize) -> Vec<Vec<u8>> {
     v
 }
 
+/// Originals that are sparse in the *transform domain*: what the encoder's
+/// first inverse transform makes of them has only one to three non-zero
+/// shards per chunk (they are the forward transform, by the Naive engine, of
+/// such a vector; remaining originals are zero). Intermediate values of the
+/// coding are then zero in most positions - which is where a shortcut that
+/// tests intermediates for zero decides. Only for shard sizes that are
+/// multiples of 64 and configurations whose chunks are full.
+pub fn spectral_sparse_originals(rng: &mut Rng, high: bool, k: usize, r: usize, size: usize) -> Option<Vec<Vec<u8>>> {
+    use reed_solomon_simd::engine::{Engine, Naive, ShardsRefMut};
+    if size == 0 || size % 64 != 0 {
+        return None;
+    }
+    let l = size / 64;
+    let m = if high { r.next_power_of_two() } else { k.next_power_of_two() };
+    if k < m || (!high && k != m) || m > 4096 || m * l > 1 << 16 || (high && k + m > 65536) {
+        return None;
+    }
+    let naive = Naive::new();
+    let chunks = if high { k / m } else { 1 };
+    let mut out: Vec<Vec<u8>> = Vec::with_capacity(k);
+    for c in 0..chunks {
+        let mut buf = vec![[0u8; 64]; m * l];
+        for _ in 0..rng.range(1, 3) {
+            let p = rng.below(m);
+            for b in &mut buf[p * l..(p + 1) * l] {
+                rng.fill(b);
+            }
+        }
+        // the encoder inverts with skew_delta = end of the chunk (high rate) / 0 (low rate)
+        let skew = if high { (c + 1) * m } else { 0 };
+        {
+            let mut data = ShardsRefMut::new(m, l, &mut buf);
+            naive.fft(&mut data, 0, m, m, skew);
+        }
+        for i in 0..m {
+            out.push(buf[i * l..(i + 1) * l].as_flattened().to_vec());
+        }
+    }
+    while out.len() < k {
+        out.push(vec![0u8; size]);
+    }
+    Some(out)
+}
+
+/// `originals`, or (one case in ten where it is possible) data that is sparse
+/// in the transform domain of the rate that will code it.
+pub fn originals_for(rng: &mut Rng, rate: RateKind, k: usize, r: usize, size: usize) -> Vec<Vec<u8>> {
+    if rng.chance(1, 10) {
+        let high = match rate {
+            RateKind::High => true,
+            RateKind::Low => false,
+            RateKind::Default => rule_high(k, r),
+        };
+        if let Some(v) = spectral_sparse_originals(rng, high, k, r, size) {
+            return v;
+        }
+    }
+    originals(rng, k, size)
+}
+
 /// A received set with at least k members: (original indexes, recovery
 /// indexes), each ascending. `shape` is returned for coverage accounting.
 pub fn received_set(rng: &mut Rng, k: usize, r: usize) -> (Vec<usize>, Vec<usize>, &'static str) {
